@@ -3,6 +3,8 @@ package main
 
 import (
 	"bytes"
+	"encoding/base64"
+	"encoding/json"
 	"errors"
 	"fmt"
 	"math"
@@ -50,6 +52,11 @@ func (e *exec) Do(line string) string {
 		e.kept = nil
 		return "ok"
 	}
+	if f[0] == "newc" { // the deprecated second constructor
+		e.c = container.NewContainer(hexes(f[1:])...)
+		e.kept = nil
+		return "ok"
+	}
 	c := e.c
 	if c == nil {
 		return "bad-op"
@@ -80,6 +87,21 @@ func (e *exec) Do(line string) string {
 		c.AppendContainerAsBlock(container.New(hexes(f[1:])...))
 	case "prependlen":
 		c.PrependLength()
+	case "appendpack8", "appendpack16", "appendpack32", "prependpack8", "prependpack16", "prependpack32":
+		var enc []byte
+		switch strings.TrimLeft(f[0], "apenrd") { // "pack8" → "ck8" etc.
+		case "ck8":
+			enc = varint.Pack8(uint8(atou()))
+		case "ck16":
+			enc = varint.Pack16(uint16(atou()))
+		default:
+			enc = varint.Pack32(uint32(atou()))
+		}
+		if strings.HasPrefix(f[0], "append") {
+			c.Append(enc)
+		} else {
+			c.Prepend(enc)
+		}
 	case "replace":
 		c.Replace(hxlib.UnHex(f[1]))
 	case "compile":
@@ -166,6 +188,52 @@ func (e *exec) Do(line string) string {
 		return "f"
 	case "len":
 		return "n " + strconv.Itoa(c.Length())
+	case "json", "jsonm": // serialization.go, called directly / through encoding/json as callers do
+		var js []byte
+		var err error
+		if f[0] == "json" {
+			js, err = c.MarshalJSON()
+		} else {
+			js, err = json.Marshal(c)
+		}
+		if err != nil {
+			return "err other:" + err.Error()
+		}
+		if string(js) == "null" {
+			// canonicalisation: a container whose only compartment is a nil slice serialises as null, one
+			// whose only compartment is an empty non-nil slice as "" — both are the empty byte string
+			// (the model has no nil/empty distinction)
+			js = []byte(`""`)
+		}
+		return b(js)
+	case "unjson", "unjsonm":
+		var err error
+		if f[0] == "unjson" {
+			err = c.UnmarshalJSON(hxlib.UnHex(f[1]))
+		} else {
+			err = json.Unmarshal(hxlib.UnHex(f[1]), c)
+		}
+		if err != nil {
+			return "err json"
+		}
+		return "ok"
+	case "writeto", "writetox":
+		// WriteAllTo into a writer that accepts f[1] bytes in total and then fails with a short write;
+		// writetox: the writer additionally takes at most f[2] bytes per call (short writes WITHOUT an error,
+		// which the io.Writer contract forbids but the loop in WriteAllTo tolerates)
+		w := &budgetWriter{budget: atoi(), chunk: 1 << 30}
+		if f[0] == "writetox" {
+			w.chunk, _ = strconv.Atoi(f[2])
+		}
+		err := c.WriteAllTo(w)
+		if err != nil && !errors.Is(err, errWriterFull) {
+			return "err other:" + err.Error()
+		}
+		t := "t"
+		if err != nil {
+			t = "f"
+		}
+		return "wts " + hxlib.Hex(w.buf) + " " + t
 	case "dump":
 		var buf bytes.Buffer
 		if err := c.WriteAllTo(&buf); err != nil {
@@ -176,6 +244,37 @@ func (e *exec) Do(line string) string {
 		return "bad-op"
 	}
 	return "ok"
+}
+
+var errWriterFull = errors.New("writer full")
+
+type budgetWriter struct {
+	buf    []byte
+	budget int
+	chunk  int
+	calls  int
+}
+
+func (w *budgetWriter) Write(p []byte) (int, error) {
+	w.calls++
+	if w.calls > 1<<20 {
+		panic("WriteAllTo does not terminate")
+	}
+	n := len(p)
+	short := false
+	if n > w.chunk {
+		n = w.chunk
+	}
+	if n > w.budget {
+		n = w.budget
+		short = true
+	}
+	w.buf = append(w.buf, p[:n]...)
+	w.budget -= n
+	if short {
+		return n, errWriterFull
+	}
+	return n, nil
 }
 
 // dumpOf reads a container without consuming or restructuring it.
@@ -211,6 +310,16 @@ func uvar(q []byte, k int, limit uint64) (uint64, int, string) {
 	return 0, 0, "small"
 }
 
+// refPut: base-128 little-endian groups with continuation bits — the monitor's own encoder.
+func refPut(n uint64) []byte {
+	var o []byte
+	for n >= 0x80 {
+		o = append(o, byte(n)|0x80)
+		n >>= 7
+	}
+	return append(o, byte(n))
+}
+
 func monitor(c hxlib.Case, outs []string) (vs []hxlib.Violation) {
 	var q []byte
 	var kept []byte
@@ -243,10 +352,31 @@ func monitor(c hxlib.Case, outs []string) (vs []hxlib.Violation) {
 		}
 		take := func(n int) []byte { return append([]byte{}, q[:n]...) }
 		switch f[0] {
-		case "new":
+		case "new", "newc":
 			q = cat(f[1:])
 			started = true
 			haveKept = false
+		case "json", "jsonm":
+			want = hx([]byte(`"` + base64.StdEncoding.EncodeToString(q) + `"`))
+		case "unjson", "unjsonm":
+			// reference: what the JSON codec itself makes of the text as a byte string
+			var raw []byte
+			if err := json.Unmarshal(hxlib.UnHex(f[1]), &raw); err != nil {
+				want = "err json" // the container must stay as it was (checked by the following lines)
+			} else {
+				q = append([]byte{}, raw...)
+			}
+		case "writeto", "writetox":
+			n := atoi()
+			t := "f"
+			if n >= len(q) {
+				n = len(q)
+				t = "t"
+			}
+			if n < 0 {
+				n = 0
+			}
+			want = "wts " + hxlib.Hex(take(n)) + " " + t
 		case "kdump":
 			want = "nil"
 			if haveKept {
@@ -257,26 +387,30 @@ func monitor(c hxlib.Case, outs []string) (vs []hxlib.Violation) {
 		case "prepend":
 			q = append(hxlib.UnHex(f[1]), q...)
 		case "appendnum":
-			q = append(q, varint.Pack64(atou())...)
+			q = append(q, refPut(atou())...)
 		case "prependnum":
-			q = append(varint.Pack64(atou()), q...)
+			q = append(refPut(atou()), q...)
 		case "appendint":
-			q = append(q, varint.Pack64(uint64(atoi()))...)
+			q = append(q, refPut(uint64(atoi()))...)
 		case "prependint":
-			q = append(varint.Pack64(uint64(atoi())), q...)
+			q = append(refPut(uint64(atoi())), q...)
 		case "appendblock":
 			d := hxlib.UnHex(f[1])
-			q = append(append(q, varint.Pack64(uint64(len(d)))...), d...)
+			q = append(append(q, refPut(uint64(len(d)))...), d...)
 		case "prependblock":
 			d := hxlib.UnHex(f[1])
-			q = append(append(varint.Pack64(uint64(len(d))), d...), q...)
+			q = append(append(refPut(uint64(len(d))), d...), q...)
 		case "appendcont":
 			q = append(q, cat(f[1:])...)
 		case "appendcontblock":
 			d := cat(f[1:])
-			q = append(append(q, varint.Pack64(uint64(len(d)))...), d...)
+			q = append(append(q, refPut(uint64(len(d)))...), d...)
+		case "appendpack8", "appendpack16", "appendpack32":
+			q = append(q, refPut(atou())...)
+		case "prependpack8", "prependpack16", "prependpack32":
+			q = append(refPut(atou()), q...)
 		case "prependlen":
-			q = append(varint.Pack64(uint64(len(q))), q...)
+			q = append(refPut(uint64(len(q))), q...)
 		case "replace":
 			q = hxlib.UnHex(f[1])
 		case "compile", "dump":
@@ -438,6 +572,8 @@ func generate(r *hxlib.Run, emit func(hxlib.Case)) {
 		{"new 8080808080808080807f 0102", "block", "dump"},
 		{"new 8080808080800100 01", "blockcont", "dump"},
 		{"new 0102", "get 9223372036854775807", "getmax 9223372036854775807", "len"},
+		{"new 01", "prepend 02", "unjson 2241513d3d22", "len", "dump", "prepend 03", "dump"},
+		{"newc 01 -", "get 1", "unjsonm 6e756c6c", "len", "json", "prependlen", "jsonm", "writeto 0", "writeto 1"},
 	}
 	for _, c := range corpus {
 		emit(hxlib.Case{Lines: c, NonTrivial: true, Kind: "corpus"})
@@ -547,16 +683,154 @@ func generate(r *hxlib.Run, emit func(hxlib.Case)) {
 		lines = append(lines, "len", "dump", "kdump")
 		emit(hxlib.Case{Lines: lines, NonTrivial: true, Kind: "split-then-modify"})
 	}
+	// JSON round trip (serialization.go): a container with history is serialised; the text is read back into
+	// the same container later, or into another container that has been used before (offset > 0, spare slots)
+	for i := 0; i < r.Budget(1500, 60000); i++ {
+		ctor := []string{"new", "newc"}[rng.Intn(2)]
+		lines := []string{strings.TrimSpace(ctor + " " + slices())}
+		for j := 0; j < rng.Intn(5); j++ {
+			switch rng.Intn(5) {
+			case 0:
+				lines = append(lines, "append "+slice())
+			case 1:
+				lines = append(lines, "prepend "+slice())
+			case 2:
+				lines = append(lines, "get "+strconv.Itoa(rng.Intn(6)))
+			case 3:
+				lines = append(lines, "prependnum "+num())
+			default:
+				lines = append(lines, "wts "+strconv.Itoa(rng.Intn(9)))
+			}
+		}
+		e := &exec{}
+		for _, l := range lines {
+			e.Do(l)
+		}
+		js := []string{"json", "jsonm"}[rng.Intn(2)]
+		text := strings.TrimPrefix(e.Do(js), "b ") // generator may call the implementation to learn the text
+		lines = append(lines, js, "len", "dump")
+		if rng.Intn(2) == 0 { // a second, used container takes the text
+			lines = append(lines, strings.TrimSpace([]string{"new", "newc"}[rng.Intn(2)]+" "+slices()))
+		}
+		for j := 0; j < rng.Intn(4); j++ {
+			switch rng.Intn(4) {
+			case 0:
+				lines = append(lines, "prepend "+slice())
+			case 1:
+				lines = append(lines, "get "+strconv.Itoa(1+rng.Intn(20)))
+			case 2:
+				lines = append(lines, "prependlen")
+			default:
+				lines = append(lines, "append "+slice())
+			}
+		}
+		un := []string{"unjson ", "unjsonm "}[rng.Intn(2)]
+		if rng.Intn(8) == 0 {
+			lines = append(lines, un+hxlib.Hex(canonicalJSON(rng)), "len", "dump")
+		}
+		lines = append(lines, un+text, "len", "holds", "dump")
+		for j := 0; j < 1+rng.Intn(4); j++ {
+			switch rng.Intn(6) {
+			case 0:
+				lines = append(lines, "prepend "+slice())
+			case 1:
+				lines = append(lines, "append "+slice())
+			case 2:
+				lines = append(lines, "get "+strconv.Itoa(rng.Intn(6)))
+			case 3:
+				lines = append(lines, "n64")
+			case 4:
+				lines = append(lines, "writeto "+strconv.Itoa(rng.Intn(12)))
+			default:
+				lines = append(lines, js)
+			}
+			lines = append(lines, "len")
+		}
+		lines = append(lines, "len", "dump")
+		emit(hxlib.Case{Lines: lines, NonTrivial: true, Kind: "json-roundtrip"})
+	}
+	// JSON texts outside the modelled codec (white space, escapes, line breaks inside the string, arrays of
+	// numbers, other JSON values, broken syntax): implementation only; the monitor's reference is the JSON
+	// codec itself applied to a byte slice; after an error the container must be as before
+	for i := 0; i < r.Budget(1500, 60000); i++ {
+		lines := []string{strings.TrimSpace([]string{"new", "newc"}[rng.Intn(2)] + " " + slices())}
+		for j := 0; j < rng.Intn(3); j++ {
+			lines = append(lines, []string{"prepend " + slice(), "get " + strconv.Itoa(1+rng.Intn(9)), "append " + slice()}[rng.Intn(3)])
+		}
+		for j := 0; j < 1+rng.Intn(3); j++ {
+			lines = append(lines, []string{"unjson ", "unjsonm "}[rng.Intn(2)]+hxlib.Hex(oddJSON(rng)), "len", "dump")
+			if rng.Intn(2) == 0 {
+				lines = append(lines, "prepend "+slice(), "len", "get 2", "dump")
+			}
+		}
+		emit(hxlib.Case{Lines: lines, NonTrivial: true, Kind: "json-outside-model", NoModel: true})
+	}
+	// writers that take a few bytes per call without reporting an error (short writes), with and without a
+	// total budget: implementation only
+	for i := 0; i < r.Budget(800, 30000); i++ {
+		lines := []string{strings.TrimSpace([]string{"new", "newc"}[rng.Intn(2)] + " " + slices())}
+		for j := 0; j < rng.Intn(4); j++ {
+			lines = append(lines, []string{"prepend " + slice(), "get " + strconv.Itoa(1+rng.Intn(9)), "append " + slice(), "append -"}[rng.Intn(4)])
+		}
+		for j := 0; j < 1+rng.Intn(3); j++ {
+			lines = append(lines, fmt.Sprintf("writetox %d %d", []int{0, 1, 5, 17, 1000}[rng.Intn(5)], 1+rng.Intn(7)), "len", "dump")
+		}
+		emit(hxlib.Case{Lines: lines, NonTrivial: true, Kind: "short-writer", NoModel: true})
+	}
+	// numbers of the narrow widths: written with Pack8/16/32, read back with the matching and with narrower
+	// readers (a value too large for the reader is an error and must leave the queue as it was)
+	for i := 0; i < r.Budget(1000, 40000); i++ {
+		lines := []string{[]string{"new", "newc"}[rng.Intn(2)]}
+		type wn struct {
+			w int
+			n uint64
+		}
+		var put []wn
+		for j := 0; j < 1+rng.Intn(6); j++ {
+			w := []int{8, 16, 32}[rng.Intn(3)]
+			n := rng.Uint64() >> uint(64-w) >> uint(rng.Intn(w))
+			if rng.Intn(4) == 0 {
+				n = []uint64{0, 127, 128, 255, 256, 16383, 16384, 65535, 65536, 2097151, 2097152, 1<<32 - 1}[rng.Intn(12)] & (1<<uint(w) - 1)
+			}
+			if rng.Intn(5) == 0 {
+				lines = append(lines, fmt.Sprintf("prependpack%d %d", w, n))
+				put = append([]wn{{w, n}}, put...)
+			} else {
+				lines = append(lines, fmt.Sprintf("appendpack%d %d", w, n))
+				put = append(put, wn{w, n})
+			}
+		}
+		if rng.Intn(3) == 0 {
+			lines = append(lines, "append "+slice())
+		}
+		for _, p := range put {
+			rd := p.w
+			if rng.Intn(3) == 0 {
+				rd = []int{8, 16, 32, 64}[rng.Intn(4)]
+			}
+			lines = append(lines, fmt.Sprintf("n%d", rd))
+			if rng.Intn(4) == 0 {
+				lines = append(lines, "len")
+			}
+		}
+		lines = append(lines, "len", "dump")
+		emit(hxlib.Case{Lines: lines, NonTrivial: true, Kind: "narrow-numbers"})
+	}
 	N := r.Budget(20000, 1500000)
 	for i := 0; i < N; i++ {
 		var lines []string
+		ctor := "new"
+		if rng.Intn(4) == 0 {
+			ctor = "newc"
+		}
+		r.Count("ctor:" + ctor)
 		switch rng.Intn(4) {
 		case 0:
-			lines = append(lines, "new")
+			lines = append(lines, ctor)
 		case 1:
-			lines = append(lines, "new "+slice())
+			lines = append(lines, ctor+" "+slice())
 		default:
-			lines = append(lines, strings.TrimSpace("new "+slices()+" "+slice()))
+			lines = append(lines, strings.TrimSpace(ctor+" "+slices()+" "+slice()))
 		}
 		maxOps := 60
 		if r.Thorough && rng.Intn(20) == 0 {
@@ -591,7 +865,14 @@ func generate(r *hxlib.Run, emit func(hxlib.Case)) {
 				return strconv.Itoa(rng.Intn(20))
 			}
 			var l string
-			switch k := rng.Intn(34); k {
+			switch k := rng.Intn(38); k {
+			case 34:
+				l = []string{"json", "jsonm"}[rng.Intn(2)]
+			case 35:
+				l = []string{"unjson ", "unjsonm "}[rng.Intn(2)] + hxlib.Hex(canonicalJSON(rng))
+				adding++
+			case 36, 37:
+				l = "writeto " + strings.TrimPrefix(ln(), "-")
 			case 0, 1:
 				l = "append " + slice()
 				adding++
@@ -696,10 +977,82 @@ func generate(r *hxlib.Run, emit func(hxlib.Case)) {
 	}
 }
 
+// canonicalJSON: a text inside the modelled codec — null, or a quoted string over the base64 alphabet and '=':
+// mostly the encoding of random bytes, sometimes damaged (wrong length, padding in the wrong place, data after
+// the padding, unused trailing bits set).
+func canonicalJSON(rng interface{ Intn(int) int }) []byte {
+	if rng.Intn(12) == 0 {
+		return []byte("null")
+	}
+	raw := make([]byte, []int{0, 1, 2, 3, 4, 5, 6, 7, 30, 31, 32}[rng.Intn(11)])
+	for i := range raw {
+		raw[i] = byte(rng.Intn(256))
+	}
+	s := []byte(base64.StdEncoding.EncodeToString(raw))
+	const alpha = "ABCDEFGHIJKLMNOPQRSTUVWXYZabcdefghijklmnopqrstuvwxyz0123456789+/="
+	if len(s) > 0 {
+		switch rng.Intn(8) {
+		case 0:
+			s[rng.Intn(len(s))] = '='
+		case 1:
+			s = s[:len(s)-1-rng.Intn(2)]
+		case 2:
+			s = append(s, alpha[rng.Intn(len(alpha))])
+		case 3:
+			s[rng.Intn(len(s))] = alpha[rng.Intn(len(alpha))]
+		case 4:
+			s = append(s, s[:4]...)
+		}
+	}
+	return []byte(`"` + string(s) + `"`)
+}
+
+// oddJSON: JSON texts (and non-JSON) that the model does not decide.
+func oddJSON(rng interface{ Intn(int) int }) []byte {
+	raw := make([]byte, rng.Intn(9))
+	for i := range raw {
+		raw[i] = byte(rng.Intn(256))
+	}
+	b64 := base64.StdEncoding.EncodeToString(raw)
+	switch rng.Intn(14) {
+	case 0:
+		return []byte(" \n\t\"" + b64 + "\" \r\n")
+	case 1:
+		arr, _ := json.Marshal(func() []int { o := make([]int, len(raw)); for i, x := range raw { o[i] = int(x) }; return o }())
+		return arr
+	case 2:
+		return []byte("[1, 256, -1]")
+	case 3:
+		if len(b64) > 2 {
+			return []byte(`"` + b64[:2] + "\\n" + b64[2:] + `"`) // escaped line break inside the string: base64 skips it
+		}
+		return []byte(`"\n"`)
+	case 4:
+		return []byte(`"\u0051\u0051=="`)
+	case 5:
+		return []byte(`{"a":1}`)
+	case 6:
+		return []byte("12")
+	case 7:
+		return []byte(`"` + b64) // unterminated
+	case 8:
+		return nil
+	case 9:
+		return []byte(`"` + strings.ReplaceAll(b64, "=", "") + `"`) // unpadded
+	case 10:
+		return []byte(`"` + strings.NewReplacer("+", "-", "/", "_").Replace(b64) + `-_"`) // URL alphabet
+	case 11:
+		return []byte("true")
+	case 12:
+		return []byte(`"` + b64 + `" x`)
+	}
+	return raw
+}
+
 func main() {
 	hxlib.Main(&hxlib.Harness{
 		Prop:     "C16",
-		Rule:     "(also: containers with 90–230 compartments consumed piecewise; split-off containers read again after the parent was modified) each case creates a container (empty / one slice / many slices incl. empty ones) and applies 1–60 (thorough: up to 400) random public method calls with slices of length 0, 1, 2–16, 200, numbers at all varint boundaries up to 2^64-1, requested lengths from {-5,-1,0,1,exact,exact±1,huge,MinInt}; Length/HoldsData/full dump after every 8th op and at the end. Non-trivial: at least one consuming op after at least one append and one prepend (so more than one compartment and the offset machinery are exercised); distinct by hash of the op lines.",
+		Rule:     "(also: both constructors New/NewContainer; MarshalJSON/UnmarshalJSON directly and through encoding/json, round trip into the same and into another used container, damaged base64 texts; JSON texts outside the modelled codec and short-writing writers on the implementation only; WriteAllTo into writers that fail after k bytes) (also: containers with 90–230 compartments consumed piecewise; split-off containers read again after the parent was modified) each case creates a container (empty / one slice / many slices incl. empty ones) and applies 1–60 (thorough: up to 400) random public method calls with slices of length 0, 1, 2–16, 200, numbers at all varint boundaries up to 2^64-1, requested lengths from {-5,-1,0,1,exact,exact±1,huge,MinInt}; Length/HoldsData/full dump after every 8th op and at the end. Non-trivial: at least one consuming op after at least one append and one prepend (so more than one compartment and the offset machinery are exercised); distinct by hash of the op lines.",
 		Generate: generate,
 		NewExec:  func(*hxlib.Run) hxlib.Exec { return &exec{} },
 		Monitor:  monitor,
